@@ -1,5 +1,5 @@
 """A fresh interpreter in which the host tables ARE Darwin's before the package under test is imported:
-   python -m kdv.hostproc   (stdin: one JSON decoder case per line; stdout: one JSON string per line)
+   python -m kdv.hostproc [host|darwin] [stream|fresh|search]   (stdin: one JSON object per line; stdout: one JSON answer per line)
 An in-process swap of the objects a handler module imported cannot see a table captured at import time (a module-level
 tuple or dict built from errno.errorcode); replacing the tables before the import can."""
 import enum
@@ -22,18 +22,35 @@ def install_darwin():
 
 
 def main():
-    if len(sys.argv) < 2 or sys.argv[1] != 'host':
+    """argv: [host|darwin] [stream|fresh|search]
+    stream - one decoder case per line, rendered one after the other in this interpreter (the first line is rendered first
+             thing, every later one after the earlier ones);
+    fresh  - every line rendered in its own fork of this interpreter, in which nothing was rendered before;
+    search - one request per line for kdv.neighbours.search (history dependence of renderings)."""
+    host = sys.argv[1] if len(sys.argv) > 1 else 'darwin'
+    mode = sys.argv[2] if len(sys.argv) > 2 else 'stream'
+    if host != 'host':
         install_darwin()
     from . import core
     from . import decoders as D
+    from . import neighbours as N
+
+    def text(c):
+        try:
+            return D.text_of(D.impl_fn(c))
+        except Exception as e:
+            return 'raise ' + core.err_name(e)
     out = sys.stdout
     for ln in sys.stdin:
         c = json.loads(ln)
-        try:
-            t = D.text_of(D.impl_fn(c))
-        except Exception as e:
-            t = 'raise ' + core.err_name(e)
+        if mode == 'search':
+            t = N.search(c)
+        elif mode == 'fresh':
+            t = N.in_child(lambda: text(c))
+        else:
+            t = text(c)
         out.write(json.dumps(t) + '\n')
+        out.flush()
 
 
 if __name__ == '__main__':
